@@ -131,15 +131,76 @@ class Outcome:
         return type(self.exc).__name__ if self.exc is not None else None
 
 
+class NonTermination(Exception):
+    """A call executed more statements inside the tree under test than any terminating call of this library comes near (logical bound, not a clock)."""
+
+
+class _Watchdog(BaseException):
+    pass
+
+
+WATCHDOG_S = float(os.environ.get("VERIF_CALL_WATCHDOG", "30" if os.environ.get("VERIF_TIER", "quick") == "quick" else "120"))       # generous wall-clock watchdog per call: its firing decides nothing by itself
+STEP_BUDGET = int(float(os.environ.get("VERIF_STEP_BUDGET", "3e7")))   # statements inside the tree (the longest legitimate call, a 60 000-sample batch run, executes ~6e6)
+_depth = [0]
+WATCHDOG_STATS = {"fired": 0, "non_terminating": 0}
+
+
+def _guarded(fn, a, k):
+    """fn(*a, **k) under a wall-clock watchdog; if it fires, the call is repeated under a statement counter and judged by the logical budget only."""
+    import signal
+    import sys
+    import threading
+    if _depth[0] > 0 or threading.current_thread() is not threading.main_thread() or not hasattr(signal, "setitimer"):
+        return fn(*a, **k)
+
+    def on_alarm(signum, frame):
+        raise _Watchdog()
+    old = signal.signal(signal.SIGALRM, on_alarm)
+    _depth[0] += 1
+    try:
+        signal.setitimer(signal.ITIMER_REAL, globals()["WATCHDOG_S"])
+        try:
+            return fn(*a, **k)
+        finally:
+            signal.setitimer(signal.ITIMER_REAL, 0.0)
+    except _Watchdog:
+        WATCHDOG_STATS["fired"] += 1
+        root = os.path.realpath(os.environ.get("AHRS_TREE", "/repo"))
+        n = [0]
+
+        def line_tracer(frame, event, arg):
+            if event == "line":
+                n[0] += 1
+                if n[0] > globals()["STEP_BUDGET"]:
+                    raise NonTermination("more than %d statements executed inside the library by one call (and no result after %g s before that)" % (globals()["STEP_BUDGET"], globals()["WATCHDOG_S"]))
+            return line_tracer
+
+        def tracer(frame, event, arg):
+            return line_tracer if frame.f_code.co_filename.startswith(root) else None
+        sys.settrace(tracer)
+        try:
+            return fn(*a, **k)
+        except NonTermination:
+            WATCHDOG_STATS["non_terminating"] += 1
+            # the verdict of this run is settled; spend less on every further call that hangs the same way
+            globals()["WATCHDOG_S"], globals()["STEP_BUDGET"] = min(WATCHDOG_S, 3.0), min(STEP_BUDGET, 10_000_000)
+            raise
+        finally:
+            sys.settrace(None)
+    finally:
+        _depth[0] -= 1
+        signal.signal(signal.SIGALRM, old)
+
+
 def call(fn, *a, **k):
     """Run the code under test; exceptions become Outcomes with the innermost
-    ahrs frame (file:line function) attached."""
+    ahrs frame (file:line function) attached.  A call that does not return is cut off by a logical statement budget (see _guarded)."""
     import warnings
     try:
         with warnings.catch_warnings():
             warnings.simplefilter("ignore")
             with np.errstate(all="ignore"):
-                return Outcome(True, fn(*a, **k))
+                return Outcome(True, _guarded(fn, a, k))
     except Exception as e:  # noqa: BLE001 - the code under test may raise anything
         where = None
         tb = e.__traceback__
